@@ -4,7 +4,7 @@ import tempfile
 
 from common import CACHE
 from coqrun import ni, pb
-from gen import pyref
+from gen import prims, pyref
 from gen.util import lib_vs_model, rbytes, short
 
 NEEDS = dict(cli=True, harness=True, shim=False, release=False)
@@ -21,6 +21,7 @@ def ref(m):
 
 def run(ctx):
     rng = ctx.rng
+    prims.check(ctx, ['keccak'])
     thorough = ctx.tier == "thorough"
     msgs = [bytes([i]) for i in range(256)]
     fills = []  # (byte, n)
